@@ -1363,7 +1363,8 @@ def run_one(
                     {"ops": ops + [op]},
                 )
                 # the model keeps the partial effects of these composite calls exactly like the code: go on comparing
-                failed = failed or op["op"] not in NOT_ATOMIC
+                # (not when the D85 shape is involved: there the model follows the proposed fix, not the code)
+                failed = failed or op["op"] not in NOT_ATOMIC or "locked-unnamed" in shape
             if kind not in allowed_kinds(op, real, shape):
                 for prop in ("C01", "C06"):
                     part.fail(
